@@ -142,6 +142,43 @@ func init() {
 			}
 			_ = dec
 		}
+		// large checksummed frames, up to the largest data length the length field can announce: the checksum has to
+		// cover all of it
+		sizes := []int{65535, 65518, 65517, 40000}
+		if thorough {
+			sizes = nil
+			for l := 65535; l >= 65500; l-- {
+				sizes = append(sizes, l)
+			}
+			sizes = append(sizes, 65280, 65279, 49152, 40000, 32768, 32767, 16384, 4096)
+		}
+		for _, l := range sizes {
+			body := g.bytes(l - 7)
+			ms := []rscp.Message{{Tag: 0x00800001, DataType: rscp.ByteArray, Value: body}}
+			if g.chance(0.5) {
+				for j := range body {
+					body[j] = 'a' + body[j]%26
+				}
+				ms = []rscp.Message{{Tag: 0x00800001, DataType: rscp.CString, Value: string(body)}}
+			}
+			base := plainFrame(ms, true, g.time())
+			if base == nil {
+				continue
+			}
+			fs := 18 + l + 4
+			bitsCase(cw, base, fmt.Sprintf("valid large data=%d", l), false)
+			for _, b := range []int{4 + g.pick(12), 18 + 7 + g.pick(16), 18 + 7 + 16 + g.pick(l-7-32), fs - 5 - g.pick(8), fs - 1 - g.pick(4)} {
+				p := append([]byte{}, base...)
+				p[b] ^= 1 << uint(g.pick(8))
+				bitsCase(cw, p, fmt.Sprintf("flip1 byte=%d large data=%d", b, l), true)
+			}
+			p := append([]byte{}, base...)
+			p[18+7+g.pick(l-7)] ^= byte(1 + g.pick(255))
+			p[18+7+g.pick(l-7)] ^= byte(1 + g.pick(255))
+			if string(p) != string(base) {
+				anyCase(cw, p, fmt.Sprintf("two-bytes large data=%d", l))
+			}
+		}
 		_ = time.Now
 		_ = rscp.None
 	}
